@@ -258,6 +258,10 @@ func (c *FCGIClient) writePairs(recType uint8, pairs map[string]string) error {
 		if m > maxWrite {
 			// param data size exceed 65535 bytes"
 			vl := maxWrite - 8 - len(k)
+			if vl < 0 {
+				// the name alone does not fit into a record; it cannot be sent
+				continue
+			}
 			v = v[:vl]
 		}
 		n := encodeSize(b, uint32(len(k)))
